@@ -322,6 +322,9 @@ inline int sim_main(int argc, char** argv, Engine& e) {
         char path[512];
         snprintf(path, sizeof path, "%s/%s-%s-%s-%llu-%llu.replay", outdir.c_str(), e.property(), e.name(), SIM_BUILD_TAG, (unsigned long long)seed, (unsigned long long)idx);
         write_replay(path, q, oq, e, SIM_BUILD_TAG);
+        // the unminimised plan is kept next to it: the driver falls back to it when the minimised plan does not reproduce in a fresh process
+        // (a defect with undefined behaviour can depend on what a forked minimiser child inherited)
+        if (q.str() != p.str()) write_replay(std::string(path) + ".orig", p, o, e, SIM_BUILD_TAG);
         printf("FOUND %llu class=%s key=%s replay=%s steps=%zu execs=%d detail=%s\n", (unsigned long long)idx, oq.vclass.c_str(), oq.key.c_str(), path,
                q.steps.size(), m.execs, sanitize_line(oq.detail).c_str());
     }
